@@ -33,6 +33,8 @@ pub enum Case {
     Run { msg: Msg },
     /// corrupted message
     Corrupt { msg: Msg, op: u8, pos: u32, byte: u8 },
+    /// arbitrary bytes judged by the reference recogniser
+    Bytes { bytes: B },
     /// white space around the exponent marker (known finding)
     ExpWs { mantissa: String, ws1: String, e: char, ws2: String, exp: String },
 }
@@ -94,6 +96,12 @@ fn check_lex(msg: &Msg, obs: &Obs, key: &Case) -> CheckResult {
     let nt = label_msg(msg, obs);
     obs.label("well-formed message");
     obs.nontrivial_if(nt, key);
+    // the two references (AST renderer, recogniser) must not contradict each other
+    match crate::model::lex488::recognise(&r.bytes) {
+        crate::model::lex488::Verdict::WellFormed(t) => ensure!(t == r.tokens, "harness-reference-disagreement", "{:?}: recogniser {}", escape(&r.bytes), first_difference(&t, &r.tokens)),
+        crate::model::lex488::Verdict::Listed { what, .. } => fail!("harness-reference-disagreement", "{:?}: generated as well-formed, recogniser says {what}", escape(&r.bytes)),
+        crate::model::lex488::Verdict::Unknown => obs.label("well-formed message outside the recogniser's subset"),
+    }
     let (got, err) = lex_all(&r.bytes);
     let sig = if !msg.lead_ws.is_empty() && got.first() == Some(&ETok::HeaderSep) {
         "lead-ws"
@@ -527,7 +535,60 @@ pub fn check(case: &Case, obs: &Obs) -> CheckResult {
         Case::Run { msg } => check_run(msg, obs, case),
         Case::Corrupt { msg, op, pos, byte } => check_corrupt(msg, *op, *pos, *byte, obs, case),
         Case::ExpWs { mantissa, ws1, e, ws2, exp } => check_exp_ws(mantissa, ws1, *e, ws2, exp, obs, case),
+        Case::Bytes { bytes } => check_bytes(bytes, obs, case),
     }
+}
+
+/// Judge the lexer on arbitrary bytes by the independent recogniser.
+fn check_bytes(bytes: &[u8], obs: &Obs, key: &Case) -> CheckResult {
+    use crate::model::lex488::{recognise, Verdict};
+    let verdict = recognise(bytes);
+    match &verdict {
+        Verdict::Unknown => {
+            obs.label("recogniser: no claim");
+            return Ok(());
+        }
+        Verdict::WellFormed(t) => {
+            obs.label("recogniser: well-formed");
+            obs.nontrivial_if(t.iter().any(|x| x.is_data()) || t.len() >= 4, key);
+        }
+        Verdict::Listed { what, .. } => {
+            obs.label("recogniser: listed violation");
+            obs.label(what);
+            obs.nontrivial(key);
+        }
+    }
+    let (got, err) = lex_all(bytes);
+    match verdict {
+        Verdict::WellFormed(want) => {
+            if let Some(code) = err {
+                fail!("lex-mismatch", "{:?}: well-formed by 488.2 but the lexer stops with {code} after {} elements; {}", escape(bytes), got.len(), first_difference(&got, &want));
+            }
+            ensure!(got == want, "lex-mismatch", "{:?}: {}", escape(bytes), first_difference(&got, &want));
+        }
+        Verdict::Listed { prefix, what } => {
+            for (i, w) in prefix.iter().enumerate() {
+                match got.get(i) {
+                    Some(g) if g == w => {}
+                    Some(g) => fail!("prefix-differs", "{:?} ({what}): element {i} is {g:?}, expected {w:?} before the violation", escape(bytes)),
+                    None => {
+                        ensure!(err.is_none(), "early-error", "{:?} ({what}): error after {} elements, {} precede the violation", escape(bytes), got.len(), prefix.len());
+                        break;
+                    }
+                }
+            }
+            let sig: &'static str = if what == "',' before the first datum" { "leading-comma" } else { "corruption-accepted" };
+            // streaming lexer: the part of the broken element before a non-ASCII byte may come out as one element
+            let allowed_extra = if what.starts_with("non-ASCII byte") { 1 } else { 0 };
+            ensure!(got.len() <= prefix.len() + allowed_extra, sig, "{:?} ({what}): the lexer yields {:?} at/after the violation instead of rejecting it", escape(bytes), &got[prefix.len()..]);
+            match err {
+                Some(code) => ensure!(is_command_error(code), "error-class", "{:?} ({what}): rejected with {code}, not a command error", escape(bytes)),
+                None => fail!(sig, "{:?} ({what}): the lexer reaches the end without an error", escape(bytes)),
+            }
+        }
+        Verdict::Unknown => unreachable!(),
+    }
+    Ok(())
 }
 
 fn case_strategy() -> impl Strategy<Value = Case> {
@@ -551,6 +612,10 @@ fn run(e: &Engine) {
         e.require_fraction(kind, "data element", 0.08);
     }
     e.require_fraction("12-character element", "well-formed message", 0.03);
+    // (c) all strings over the class alphabet, judged by the recogniser
+    let p = crate::gen::enumstr::Partitioned { alpha: crate::props::c01::CLASS_ALPHABET, max_len: e.tier.pick(6, 7), prefix_len: 2 };
+    let pr = &p;
+    e.enumerate::<Case, _, _>("all-strings-over-class-alphabet", p.parts(), move |part, f| pr.run(part, &mut |s| f(Case::Bytes { bytes: B(s.to_vec()) })), check);
     // the known-finding class is generated only here
     e.count_excluded("exp-ws (white space around the exponent marker)", 0);
     e.proptest("exp-ws", e.tier.pick(2_000, 50_000), exp_ws_strategy, check);
